@@ -134,6 +134,18 @@ theorem skip_sound {b r} (h : skip b = .ok () r) : Reads1 b r := by
 
 /-! ### `ReadIntf` -/
 
+theorem skipP_sound {p b r} (h : skipP p b = .ok () r) : Reads1 b r := by
+  unfold skipP at h
+  split at h
+  · cases h
+  · exact skip_sound h
+
+theorem skipP_eq_skip {p b} (h : p = .stream → hasExt32 b = false) : skipP p b = skip b := by
+  unfold skipP
+  split
+  · next hc => have := h hc.1; rw [this] at hc; exact absurd hc.2 (by decide)
+  · rfl
+
 mutual
 theorem readIntfF_sound (p : Path) : ∀ (f : Nat) (b : Bytes) (o r), readIntfF p f b = .ok o r →
     parse b = some (o, r)
@@ -231,6 +243,10 @@ theorem readNil_noPanic (b) : (readNil b).NoPanic := by unfold readNil; no_panic
 theorem readMapKey_noPanic (p b) : (readMapKey p b).NoPanic := by unfold readMapKey; no_panic_prim
 theorem readEventTime_noPanic (b) : (readEventTime b).NoPanic := by unfold readEventTime; no_panic_prim
 theorem skip_noPanic (b) : (skip b).NoPanic := by unfold skip; no_panic_prim
+theorem skipP_noPanic (p b) : (skipP p b).NoPanic := by
+  unfold skipP; split
+  · exact Res.noPanic_err
+  · exact skip_noPanic b
 
 mutual
 theorem readIntfF_noPanic (p : Path) : ∀ (f : Nat) (b : Bytes), (readIntfF p f b).NoPanic
